@@ -35,6 +35,13 @@ DETECT = {
  "C03b": {"checks": "./check C03, ./check C11", "result": "both: VIOLATION with failing input, signature panic (string length prefix overshooting its region by 1-2 bytes)", "note": "same slip as seed C11, found independently; written before the D27 fix touched the same function, applied three-way"},
  "C04b": {"checks": "./check C04", "result": "VIOLATION with failing input: monitor 401 (after a CONNACK without session a restarted QoS 1/2 publish goes out with DUP=1) + lock-step difference in out", "note": ""},
  "C07b": {"checks": "./check C07", "result": "VIOLATION with failing input: monitor 701 (a PUBREL is written after the CONNECT and before any CONNACK on the next connection) + lock-step differences (hq)", "note": ""},
+ "C08b": {"checks": "./check C08 (also C18)", "result": "VIOLATION with failing input: monitor 803 (the reported next service time is later than the ack deadline of a still incomplete operation) + lock-step difference in nst", "note": "same derive-ordering slip as seed C18, found independently for C08; monitor 803 had been added from my own review shortly before"},
+ "C09b": {"checks": "./check C09", "result": "VIOLATION with failing input: monitor 902 (after a reconnect under the one-at-a-time policy more than one acknowledged operation is outstanding while interrupted operations are unresolved) + lock-step difference in ss", "note": ""},
+ "C12b": {"checks": "./check C12", "result": "VIOLATION with failing input: engine-fact check of the client area (closing a connection while the DISCONNECT is encoded but unflushed returns an error: the event loop would exit) — the D14 regression signature", "note": ""},
+ "C14b": {"checks": "./check C14", "result": "VIOLATION with failing input: monitor 1402 (a PINGRESP deadline outlives its connection: after a successful close the snapshot still holds a ping deadline; with K = 0 a later service fails with the keep-alive error)",
+          "note": "first run: only no-failing-input-found (pingto differed): monitor 1401 accepted a keep-alive failure at or after ANY armed deadline, including one armed on an earlier connection. Monitor 1402 now also states that no deadline survives a close and that K = 0 never produces a keep-alive failure"},
+ "C16b": {"checks": "./check C16 (engine area)", "result": "VIOLATION with failing input: monitor 1601 (a PUBLISH establishing an alias binding is written although its wire size exceeds the Maximum Packet Size of the CONNACK)",
+          "note": "first run: MISSED by ./check C16 (the validation functions themselves were intact; the seed changed which packet form the engine hands them). C17 reported a lock-step difference only. The engine area and the wire monitor 1601 (mon_c16_wire) were added to C16 because of this seed; the simulated broker now announces capability restrictions"},
 }
 sid = sys.argv[1]
 d = "/verif/seeded/%s" % sid
